@@ -34,6 +34,7 @@ type Case struct {
 	CH, N  int     `json:",omitempty"` // SCEP challenge / notifying webhooks
 	CRL    bool    `json:",omitempty"` // crl.enabled + generateOnRevoke
 	NoDB   bool    `json:",omitempty"` // the authority runs without a database (db.SimpleDB)
+	Var    string  `json:",omitempty"` // variant of the request: scep renewal | update; acme ids2 | pending | ids2pending
 	Chk    int     // index of the in-process check made to fail by the request's content, -1 = none
 	Faults []Fault `json:",omitempty"`
 	Fn     string  `json:",omitempty"` // src lines: function name
@@ -56,7 +57,11 @@ func (k *Case) render() string {
 			subs = append(subs, f.Sub)
 		}
 	}
-	return fmt.Sprintf("run op=%s e=%d a=%d ch=%d n=%d crl=%s db=%s chk=%s faults=%s sub=%s", k.Op, k.E, k.A, k.CH, k.N, c.B(k.CRL),
+	v := k.Var
+	if v == "" {
+		v = "-"
+	}
+	return fmt.Sprintf("run op=%s var=%s e=%d a=%d ch=%d n=%d crl=%s db=%s chk=%s faults=%s sub=%s", k.Op, v, k.E, k.A, k.CH, k.N, c.B(k.CRL),
 		c.B(!k.NoDB), chk, c.List(fs), c.List(subs)) + cs
 }
 
@@ -115,7 +120,7 @@ func failClosed(cl, got string, trace, ids []string, handedN, recordedN, rev, to
 	} else if got != "none" {
 		return "BROKEN"
 	}
-	if tok > 0 && reuse == "ok" {
+	if tok > 0 && strings.Contains(reuse, "ok") {
 		return "BROKEN"
 	}
 	return "ok"
@@ -164,13 +169,28 @@ func runCase(k *Case) (res result) {
 	after := e.snapshot()
 	hs := r.certs()
 	nrec := e.recorded(hs)
+	// the identical request again: (1) with the same failures still present, (2) with the
+	// failures gone, (3) after a restart of the authority on the same database (the token is
+	// issued-at 45 s ahead, so only the token record — not the "issued before the CA started"
+	// rule — can refuse it then)
 	reuse := "na"
 	if hasToken(k.Op) {
-		if r2 := e.do(q); r2.status >= 200 && r2.status <= 299 {
-			reuse = "ok"
-		} else {
-			reuse = "err"
+		cls := func(r httpResp) string {
+			if r.status >= 200 && r.status <= 299 {
+				return "ok"
+			}
+			return "err"
 		}
+		e.rec.start(k.Faults)
+		again := cls(e.do(q))
+		e.rec.stop()
+		plain := cls(e.do(q))
+		restart := "fail"
+		if ca2, err := e.ca.Restart(); err == nil {
+			e.ca = ca2
+			restart = cls(e.do(q))
+		}
+		reuse = again + "/" + plain + "/" + restart
 	}
 	if os.Getenv("VERIF_DEBUG") != "" {
 		fmt.Fprintf(os.Stderr, "%s -> %d %v\n", k.render()[:60], r.status, r.body["message"])
@@ -192,7 +212,7 @@ func faultKinds(step string) []Fault {
 	switch step {
 	case "acmeNonceUse":
 		return []Fault{{Kind: "error"}, {Kind: "timeout"}}
-	case "useToken", "storeRev", "acmeStoreCert", "acmeIndex", "acmeUpdateOrder", "acmeNonceNew":
+	case "useToken", "storeRev", "acmeStoreCert", "acmeIndex", "acmeUpdateOrder", "acmeNonceNew", "acmeAuthzUpdate", "acmeOrderReady":
 		return []Fault{{Kind: "error"}, {Kind: "timeout"}, {Kind: "deny"}}
 	case "isRevoked":
 		return []Fault{{Kind: "error"}, {Kind: "timeout"}, {Kind: "deny"}, {Kind: "malformed"}}
@@ -207,7 +227,7 @@ func faultKinds(step string) []Fault {
 	case "crlRead", "crlList":
 		return []Fault{{Kind: "error"}, {Kind: "malformed"}}
 	case "enrich", "authorize", "challenge", "notify":
-		return []Fault{{Kind: "error", Sub: "5xx"}, {Kind: "error", Sub: "refused"}, {Kind: "error", Sub: "eof"},
+		return []Fault{{Kind: "error", Sub: "5xx"}, {Kind: "error", Sub: "refused"}, {Kind: "error", Sub: "eof"}, {Kind: "error", Sub: "tls"},
 			{Kind: "deny", Sub: "deny"}, {Kind: "deny", Sub: "null"}, {Kind: "deny", Sub: "emptyobj"},
 			{Kind: "malformed", Sub: "4xx"}, {Kind: "malformed", Sub: "garbage"}, {Kind: "malformed", Sub: "empty"},
 			{Kind: "malformed", Sub: "truncated"}, {Kind: "malformed", Sub: "wrongtype"}, {Kind: "timeout"}}
@@ -228,12 +248,13 @@ type scenario struct {
 	CH, N    int
 	CRL      bool
 	NoDB     bool
+	Var      string
 	Chks     []int // indices of the in-process decisions the request content can make fail
 	Thorough bool  // only in the thorough tier
 }
 
 func (s scenario) newCase(chk int, fs ...Fault) *Case {
-	return &Case{Op: s.Op, E: s.E, A: s.A, CH: s.CH, N: s.N, CRL: s.CRL, NoDB: s.NoDB, Chk: chk, Faults: fs}
+	return &Case{Op: s.Op, E: s.E, A: s.A, CH: s.CH, N: s.N, CRL: s.CRL, NoDB: s.NoDB, Var: s.Var, Chk: chk, Faults: fs}
 }
 
 var scenarios = []scenario{
@@ -246,6 +267,8 @@ var scenarios = []scenario{
 	{Op: "sshsign", Chks: []int{0, 1, 4}}, {Op: "sshsign", E: 1, A: 2, Chks: []int{0, 1, 4}},
 	{Op: "sshrenew", Chks: []int{0}}, {Op: "sshrekey", Chks: []int{0}}, {Op: "sshrevoke", Chks: []int{0}},
 	{Op: "sshrevoke", CRL: true},
+	// SSH renew / rekey over mTLS: the X.509 identity certificate is renewed in the same request
+	{Op: "sshrenew", Var: "identity"}, {Op: "sshrekey", Var: "identity"},
 	// the SSH sign handler issuing three certificates: user, add-user, X.509 identity
 	{Op: "sshsignfull"}, {Op: "sshsignfull", E: 1, A: 1},
 	// acme: 0 JWS shape, 1 signature / payload, 2 order ownership, 3 CSR vs identifiers
@@ -253,6 +276,13 @@ var scenarios = []scenario{
 	// SCEP: 0 parse+decrypt, (1 static challenge when ch=0), then AuthorizeSign, request
 	// validators, template/policy, encryption of the reply (fails for an EC requester), signing
 	{Op: "scep", Chks: []int{1, 5}}, {Op: "scep", CH: 2, N: 1, Chks: []int{4}}, {Op: "scep", E: 1, A: 1, CH: 1, N: 2},
+	// webhook definitions that cannot be used (secret not base64): refused before any call
+	{Op: "sign", Var: "badhook", E: 1, A: 1}, {Op: "sign", Var: "badhook", A: 1}, {Op: "sshsign", Var: "badhook", E: 1},
+	{Op: "scep", Var: "badhook", CH: 1, N: 1}, {Op: "scep", Var: "badhook", N: 1}, {Op: "acme", Var: "badhook", A: 1},
+	// SCEP message types: RenewalReq validates the challenge like PKCSReq, UpdateReq does not (as coded; C15)
+	{Op: "scep", Var: "renewal", CH: 1, N: 1}, {Op: "scep", Var: "update", CH: 2, N: 1},
+	// ACME: two identifiers; an order still pending in the database (Finalize makes it ready itself)
+	{Op: "acme", Var: "ids2"}, {Op: "acme", Var: "pending"}, {Op: "acme", Var: "ids2pending", E: 1, A: 1},
 	// no database: db.SimpleDB (ErrNotImplemented is tolerated when storing, not when revoking)
 	{Op: "sign", E: 1, A: 1, NoDB: true, Chks: []int{0, 2}}, {Op: "renew", NoDB: true}, {Op: "revoke", NoDB: true},
 	{Op: "revokemtls", NoDB: true}, {Op: "sshsign", A: 1, NoDB: true, Chks: []int{4}}, {Op: "sshrenew", NoDB: true},
@@ -263,7 +293,7 @@ var scenarios = []scenario{
 }
 
 var srcFns = []string{"authorizeToken", "authorizeSign", "signX509", "authorizeRenew", "renewContext", "Revoke",
-	"signSSH", "SignSSHAddUser", "renewSSH", "rekeySSH", "Finalize", "FinalizeOrder", "PKIOperation", "SignCSR", "Validate", "DoWithContext"}
+	"signSSH", "SignSSHAddUser", "renewSSH", "rekeySSH", "Finalize", "FinalizeOrder", "PKIOperation", "SignCSR", "Validate", "DoWithContext", "@signers", "@callers", "@scepTypes"}
 
 func runAll(ks []*Case, workers int) []result {
 	out := make([]result, len(ks))
@@ -363,6 +393,7 @@ func main() {
 
 	// 3. faults
 	rng := c.NewRng(c.Seed())
+	i0 := int(c.Seed() % 7) // which realisation goes with which position varies with the seed
 	var ks []*Case
 	for i, s := range scs {
 		tr := baseRes[i].trace
@@ -380,11 +411,25 @@ func main() {
 		// a webhook attempt that fails retryably is followed by a second attempt at p+1
 		for p, ev := range tr {
 			if st := stepOf(ev); st == "enrich" || st == "authorize" || st == "challenge" || st == "notify" {
-				for _, f2 := range faultKinds(st) {
-					ks = append(ks, mk(at(p, Fault{Kind: "error", Sub: "5xx"}), at(p+1, f2)))
+				// second answers: all realisations in the thorough tier; in the quick tier one
+				// realisation per outcome kind, rotating with the position (the single-fault
+				// cases above already run every realisation at every position)
+				all := faultKinds(st)
+				seen := map[string]int{}
+				for _, f2 := range all {
+					seen[f2.Kind]++
+				}
+				idx := map[string]int{}
+				for _, f2 := range all {
+					i := idx[f2.Kind]
+					idx[f2.Kind]++
+					if *pairs || i == (p+i0)%seen[f2.Kind] {
+						ks = append(ks, mk(at(p, Fault{Kind: "error", Sub: "5xx"}), at(p+1, f2)))
+					}
 				}
 				ks = append(ks, mk(at(p, Fault{Kind: "error", Sub: "refused"}), at(p+1, Fault{Kind: "error", Sub: "refused"})))
 				ks = append(ks, mk(at(p, Fault{Kind: "error", Sub: "eof"}), at(p+1, Fault{Kind: "error", Sub: "eof"})))
+				ks = append(ks, mk(at(p, Fault{Kind: "error", Sub: "tls"}), at(p+1, Fault{Kind: "error", Sub: "tls"})))
 			}
 		}
 		// a check failing in a request that also meets a storage fault
